@@ -786,7 +786,9 @@ class NestedSampler(BaseNestedSampler):
             self.proposal = proposal
             flags[2] = True
 
-        if self.condition > self.tolerance:
+        # A finalised run has no live points left (e.g. prior sampling, where
+        # the condition is never updated) and cannot be continued
+        if self.condition > self.tolerance and self.live_points is not None:
             self.finalised = False
 
         self.initialise_history()
